@@ -100,6 +100,15 @@ def eventsFor (key : List Msg → K) (conv : List Msg → List Ev) (C : Cache K 
   let r := lookupLongest key C msgs (msgs.length - 1)
   r.2 ++ conv (msgs.drop r.1)
 
+/-- a request that carries an explicit `state` object (Colang 1.0): `generate_async` hands the runtime
+    `state["events"] ++ _get_events_for_messages(messages, state)` and does not write the cache.  As the code is,
+    the lookup ignores `state` and still consults the implicit cache (`guarded = false`); with
+    fixes/C15-no-cache-lookup-with-state.diff (`p = len - 1 if state is None else 0`) the messages are converted
+    as they are (`guarded = true`). -/
+def eventsForState (guarded : Bool) (key : List Msg → K) (conv : List Msg → List Ev) (C : Cache K Ev)
+    (stateEv : List Ev) (msgs : List Msg) : List Ev :=
+  stateEv ++ (if guarded then conv msgs else eventsFor key conv C msgs)
+
 /-- what one `generate_async` call did -/
 structure Step (Ev : Type) where
   req : List Msg          -- the messages of the request
